@@ -236,7 +236,7 @@ def run(prop, tier):
     for n in (0, len(traces) // 2, len(traces) - 1):
         report.sample({"history": hist_keys[n], "g_after_each_construct": [e["g"] for e in traces[n]], "tlc_verdict": verdicts[n + 1][0]})
     report.assumptions += ["the fresh-process oracle is the same operation run as the only operation of a forked process that has "
-                           "imported nothing of jasm before", "bounded: histories of <= MaxOps operations over 9 rules"]
+                           "imported nothing of jasm before", "bounded: histories of <= MaxOps operations over the rule documents of spec/MC_C14.tla"]
     return report.finish()
 
 
